@@ -256,7 +256,7 @@ theorem param_skip_identity (multi : Bool) : ∀ (ps : List Param) (st : Store),
   | [], st => rfl
   | p :: ps, st => by
     have h1 : (paramStep true p st).1 = st := by
-      unfold paramStep
+      unfold paramStep stepWith
       cases decode p (st.get p.key) <;> simp
     unfold paramsPhase
     simp only
@@ -267,12 +267,12 @@ theorem param_skip_identity (multi : Bool) : ∀ (ps : List Param) (st : Store),
 /-- A parameter that is present and decodes to a value leaves the request alone. -/
 theorem param_present_unchanged (skip : Bool) (p : Param) (st : Store) (h : decode p (st.get p.key) = .val) :
     paramStep skip p st = (st, true) := by
-  unfold paramStep; simp [h]
+  unfold paramStep stepWith; simp [h]
 
 /-- A parameter only ever touches its own key. -/
 theorem param_other_keys_untouched (skip : Bool) (p : Param) (st : Store) (k : Key) (hk : k ≠ p.key) :
     (paramStep skip p st).1.get k = st.get k := by
-  unfold paramStep
+  unfold paramStep stepWith
   cases decode p (st.get p.key) with
   | err => rfl
   | val => rfl
@@ -292,7 +292,7 @@ or has no default, else its key holds the default in the serialisation the param
 theorem param_step_eq_spec_partial (skip : Bool) (p : Param) (st : Store)
     (h1 : EmptyPresent skip p st = false) (h2 : UntypedDefault skip p = false) (h3 : SprintArrayDefault skip p st = false)
     (hok : (paramStep skip p st).2 = true) : (paramStep skip p st).1 = specStep skip p st := by
-  unfold paramStep at hok ⊢
+  unfold paramStep stepWith at hok ⊢
   unfold specStep
   cases hs : skip with
   | true => cases decode p (st.get p.key) <;> simp
@@ -323,7 +323,7 @@ theorem param_step_eq_spec_partial (skip : Bool) (p : Param) (st : Store)
             | false => rfl
             | true => simp [EmptyPresent, hdf, hpath, hty, hd] at h1
           subst hf
-          have hg := decode_nil_false_absent p _ hty hd
+          have hg := decode_nil_false_absent p _ hty hpath hd
           simp only [hg, writeDefault]
           have he : encodeDefault p d = specEncode p d := by
             unfold encodeDefault specEncode
@@ -339,22 +339,22 @@ theorem param_idempotent_partial (skip : Bool) (p : Param) (st : Store)
   cases hs : skip with
   | true =>
     have : ∀ st', (paramStep true p st').1 = st' := by
-      intro st'; unfold paramStep; cases decode p (st'.get p.key) <;> simp
+      intro st'; unfold paramStep stepWith; cases decode p (st'.get p.key) <;> simp
     rw [this, this]
   | false =>
     subst hs
     cases hd : decode p (st.get p.key) with
-    | err => have e : paramStep false p st = (st, false) := by unfold paramStep; simp [hd]
+    | err => have e : paramStep false p st = (st, false) := by unfold paramStep stepWith; simp [hd]
              rw [e]; simp only; rw [e]
-    | val => have e : paramStep false p st = (st, true) := by unfold paramStep; simp [hd]
+    | val => have e : paramStep false p st = (st, true) := by unfold paramStep stepWith; simp [hd]
              rw [e]; simp only; rw [e]
     | nil found =>
       cases hdf : p.dflt with
       | none =>
-        have e : (paramStep false p st).1 = st := by unfold paramStep; simp [hd, hdf]
+        have e : (paramStep false p st).1 = st := by unfold paramStep stepWith; simp [hd, hdf]
         rw [e, e]
       | some d =>
-        have e : (paramStep false p st).1 = writeDefault p d st := by unfold paramStep; simp [hd, hdf]
+        have e : (paramStep false p st).1 = writeDefault p d st := by unfold paramStep stepWith; simp [hd, hdf]
         rw [e]
         by_cases hnil : encodeDefault p d = []
         · have : writeDefault p d st = st := by simp [writeDefault, hnil]
@@ -366,7 +366,7 @@ theorem param_idempotent_partial (skip : Bool) (p : Param) (st : Store)
             | false => rfl
             | true => simp [EmptyPresent, hdf, hpath, hty, hd] at h1
           subst hf
-          have hg := decode_nil_false_absent p _ hty hd
+          have hg := decode_nil_false_absent p _ hty hpath hd
           have hne : encodeDefault p d ≠ [.empty] := by
             intro he; simp [EmptyPresent, hdf, hpath, hty, hd, he] at h1
           have hw : (writeDefault p d st).get p.key = some (encodeDefault p d) := by
@@ -374,7 +374,7 @@ theorem param_idempotent_partial (skip : Bool) (p : Param) (st : Store)
             cases he : encodeDefault p d with
             | nil => exact absurd he hnil
             | cons w r => simp [get_add_same, hg]
-          unfold paramStep
+          unfold paramStep stepWith
           rw [hw]
           rcases decode_written p d hty hnil hne with h | h <;> simp [h]
 
@@ -384,20 +384,20 @@ theorem param_default_validates_partial (skip : Bool) (p : Param) (st : Store)
     (h1 : EmptyPresent skip p st = false) (h2 : UntypedDefault skip p = false) (h3 : SprintArrayDefault skip p st = false)
     (hok : (paramStep skip p st).2 = true) : (paramStep skip p (paramStep skip p st).1).2 = true := by
   cases hd : decode p (st.get p.key) with
-  | err => unfold paramStep at hok; simp [hd] at hok
-  | val => have e : paramStep skip p st = (st, true) := by unfold paramStep; simp [hd]
+  | err => unfold paramStep stepWith at hok; simp [hd] at hok
+  | val => have e : paramStep skip p st = (st, true) := by unfold paramStep stepWith; simp [hd]
            rw [e]; simp only; rw [e]
   | nil found =>
     cases hdf : (if skip = true then none else p.dflt) with
     | none =>
-      have e : (paramStep skip p st).1 = st := by unfold paramStep; simp [hd, hdf]
+      have e : (paramStep skip p st).1 = st := by unfold paramStep stepWith; simp [hd, hdf]
       rw [e]; exact hok
     | some d =>
       have hs : skip = false := by cases skip <;> simp_all
       subst hs
       simp only [Bool.false_eq_true, ↓reduceIte] at hdf
       have e : paramStep false p st = (writeDefault p d st, !(p.required && !found) && dfltValid p.ty d) := by
-        unfold paramStep; simp [hd, hdf]
+        unfold paramStep stepWith; simp [hd, hdf]
       rw [e] at hok ⊢
       simp only [Bool.and_eq_true] at hok
       by_cases hnil : encodeDefault p d = []
@@ -410,7 +410,7 @@ theorem param_default_validates_partial (skip : Bool) (p : Param) (st : Store)
           | false => rfl
           | true => simp [EmptyPresent, hdf, hpath, hty, hd] at h1
         subst hf
-        have hg := decode_nil_false_absent p _ hty hd
+        have hg := decode_nil_false_absent p _ hty hpath hd
         have hne : encodeDefault p d ≠ [.empty] := by
           intro he; simp [EmptyPresent, hdf, hpath, hty, hd, he] at h1
         have hw : (writeDefault p d st).get p.key = some (encodeDefault p d) := by
@@ -427,7 +427,7 @@ theorem param_default_validates_partial (skip : Bool) (p : Param) (st : Store)
           simp [ht, hl, hx] at hd
         have := decode_written_valid p d hok.2 hty hsp hck hnil hne
         simp only
-        unfold paramStep
+        unfold paramStep stepWith
         rw [hw, this]
 
 /-- **Second validation of all parameters (partial).**  For parameters with pairwise distinct (location, name), none of
@@ -492,6 +492,25 @@ example :
     paramsPhase false false ps st =
       ([((.header, "X-P"), [.lit (.str "abc")]), ((.query, "q"), [.lit (.int 7)]), ((.cookie, "ck"), [.lit (.bool true)])], true) := by
   decide
+
+/-- **The query cache is harmless within one validation.**  ValidateRequest decodes query parameters from a cache of
+the query taken when the validation began, but writes defaults into the URL.  For parameters with distinct
+(location, name) that is the same as decoding from the URL: all theorems about `paramsPhase` are theorems about the
+code's `paramsPhaseCached` with a fresh RequestValidationInput. -/
+theorem query_cache_harmless_in_one_validation (skip multi : Bool) (ps : List Param) (st : Store)
+    (hk : keysDistinct ps = true) : paramsPhaseCached skip multi st ps st = paramsPhase skip multi ps st :=
+  paramsPhaseCached_eq skip multi st ps st hk (fun _ _ => rfl)
+
+/-- F-C13-6 (new): … but not across validations that REUSE the input: the cache of the first validation does not
+    contain the default written into the URL, so `q=5` becomes `q=5&q=5` (with a fresh input nothing changes) -/
+theorem witness_stale_query_cache :
+    let p : Param := { name := "q", loc := .query, ty := .sc .integer, dflt := some (.sc (.int 5)), required := false, allowEmpty := false, explode := true }
+    let st0 : Store := []
+    let st1 := (paramsPhaseCached false false st0 [p] st0).1
+    StaleQueryCache true false p st0 = true ∧
+    st1 = [((.query, "q"), [.lit (.int 5)])] ∧
+    (paramsPhaseCached false false st0 [p] st1).1 = [((.query, "q"), [.lit (.int 5), .lit (.int 5)])] ∧
+    (paramsPhaseCached false false st1 [p] st1).1 = st1 := by decide
 
 /-- F-C13-3 (new): `?q=` with `q: integer, default 7` — the default is appended, and appended again -/
 theorem witness_empty_present :
